@@ -100,7 +100,7 @@ theorem live_ids_unique : LiveIdsUniqueStmt Cfg.repaired := by
   intro own beh hb fuel ops st hops hr hnd b1 h1 b2 h2 hl heq
   have := execOps_good own beh hb fuel ops St.init hops Top.init
   rw [hr] at this
-  have hinv := (this.2 hnd).1
+  have hinv := (this.2 hnd).1.1
   have hk := hinv.idsUnique b1 h1 b2 h2 hl heq
   have f1 := findKey_eq_of_mem hinv.keysNodup h1
   have f2 := findKey_eq_of_mem hinv.keysNodup h2
@@ -199,7 +199,7 @@ theorem destroy_notifies : DestroyNotifiesStmt Cfg.repaired := by
   intro own beh hb fuel ops st st' hops hnd hr hd
   have := execOps_good own beh hb fuel ops St.init hops Top.init
   rw [hr] at this
-  have htop := this.2 hnd
+  have htop := (this.2 hnd).1
   have hfn : ∀ b ∈ st.list.reverse, b.fn ≠ none := fun b hb' =>
     htop.1.liveFn b (List.mem_reverse.1 hb') (htop.no_tombstones b (List.mem_reverse.1 hb'))
   simp only [execOp] at hd
@@ -222,7 +222,7 @@ theorem no_tombstone_between_operations (own : Owner) (beh : Behaviour) (hb : No
     st.isIter = false ∧ ∀ b ∈ st.list, b.id ≠ TOMBSTONE := by
   have := execOps_good own beh hb fuel ops St.init hops Top.init
   rw [hr] at this
-  exact ⟨(this.2 hnd).2, (this.2 hnd).no_tombstones⟩
+  exact ⟨(this.2 hnd).1.2, (this.2 hnd).1.no_tombstones⟩
 
 
 /-! ### fire_order -/
@@ -237,11 +237,13 @@ theorem no_tombstone_between_operations (own : Owner) (beh : Behaviour) (hb : No
     2. every delivery went to a binding that was, at that moment, live and bound to `ev`;
     3. a binding of the chain that got no delivery was not live-and-bound-to-`ev` at the moment any binding *after* it
        in the chain got one (i.e. when the walker passed it), nor — unless a handler claimed the event
-       (`wf ∧ r ≠ 0`) — at the end of the occurrence.
+       (`wf ∧ r ≠ 0`) — at the end of the occurrence;
+    4. stop at the first claim (`wf`): a handler of this occurrence (`Ev.leave c o r'`) returning non-zero is the last
+       thing of the occurrence and its value is the walker's result; a non-zero result arises only so.
     So the bindings live for `ev` at the start and still live when reached are delivered to exactly once, in chain
     order (`fire_exactly_once`); and the chain is in binding order, `FIRST` binds ahead (`chain_in_binding_order`). -/
 def FireOrderStmt (cfg : Cfg) : Prop :=
-  ∀ own beh, NoDestroy beh → ∀ fuel wf ev st st' r, Tickit.Bindings.Inv st →
+  ∀ own beh, NoDestroy beh → ∀ fuel wf ev st st' r, Tickit.Bindings.Inv st → 1 ≤ st.nextOcc →
     exec cfg own beh fuel (.runEvent wf ev) st = .ok (st', r) →
     ∃ seg A, st'.log = Ev.occEnd st.nextOcc :: (seg ++ Ev.occBegin st.nextOcc ev wf :: st.log) ∧
       (keys st.list ++ A).Nodup ∧
@@ -250,21 +252,31 @@ def FireOrderStmt (cfg : Cfg) : Prop :=
       (∀ b ∈ keys st.list ++ A, b ∉ firesOf st.nextOcc seg →
         (∀ c s1 s2, seg = s2 ++ Ev.fire c st.nextOcc :: s1 → c ∈ afterK b (keys st.list ++ A) →
             ¬ evLive ev (s1 ++ Ev.occBegin st.nextOcc ev wf :: st.log) b) ∧
-        (¬ (wf = true ∧ r ≠ 0) → ¬ evLive ev (seg ++ Ev.occBegin st.nextOcc ev wf :: st.log) b))
+        (¬ (wf = true ∧ r ≠ 0) → ¬ evLive ev (seg ++ Ev.occBegin st.nextOcc ev wf :: st.log) b)) ∧
+      (∀ s2 s1 c r', seg = s2 ++ Ev.leave c st.nextOcc r' :: s1 → wf = true → r' ≠ 0 → s2 = [] ∧ r = r') ∧
+      (r ≠ 0 → wf = true ∧ ∃ c s1, seg = Ev.leave c st.nextOcc r :: s1)
 
 theorem fire_order : FireOrderStmt Cfg.repaired := by
-  intro own beh hb fuel wf ev st st' r h hex
-  exact runEvent_spec own beh hb h hex
+  intro own beh hb fuel wf ev st st' r h hocc hex
+  exact runEvent_spec own beh hb h hocc hex
+
+/-- Occurrence numbers start at 1 (0 marks notifications): the hypothesis `1 ≤ st.nextOcc` of `fire_order` holds after
+    every history, and `Step.occMono` carries it into every nested call. -/
+theorem occurrence_numbers_positive (own : Owner) (beh : Behaviour) (hb : NoDestroy beh) (fuel : Nat) (ops : List Op) (st : St)
+    (hops : ValidOps ops) (hnd : Op.destroy ∉ ops) (hr : Runs Cfg.repaired own beh fuel ops st) : 1 ≤ st.nextOcc := by
+  have := execOps_good own beh hb fuel ops St.init hops Top.init
+  rw [hr] at this
+  exact (this.2 hnd).2
 
 /-- Exactly once: a binding live for the event when the occurrence starts and still live for it when the occurrence
     ends (no handler having claimed the event) was delivered to exactly once in it. -/
 theorem fire_exactly_once (own : Owner) (beh : Behaviour) (hb : NoDestroy beh) (fuel : Nat) (wf : Bool) (ev : Int)
-    (st st' : St) (r : Int) (h : Tickit.Bindings.Inv st)
+    (st st' : St) (r : Int) (h : Tickit.Bindings.Inv st) (hocc : 1 ≤ st.nextOcc)
     (hex : exec Cfg.repaired own beh fuel (.runEvent wf ev) st = .ok (st', r)) :
     ∃ seg, st'.log = Ev.occEnd st.nextOcc :: (seg ++ Ev.occBegin st.nextOcc ev wf :: st.log) ∧
       ∀ b, evLive ev st.log b → evLive ev (seg ++ Ev.occBegin st.nextOcc ev wf :: st.log) b → ¬ (wf = true ∧ r ≠ 0) →
         (firesOf st.nextOcc seg).count b = 1 := by
-  obtain ⟨seg, A, hlog, hnd, hsub, _, hcomp⟩ := runEvent_spec own beh hb h hex
+  obtain ⟨seg, A, hlog, hnd, hsub, _, hcomp, _⟩ := runEvent_spec own beh hb h hocc hex
   refine ⟨seg, hlog, fun b hl0 hl1 hncl => ?_⟩
   have hbk : b ∈ keys st.list := by
     obtain ⟨x, hx, hxk, _⟩ := (h.liveIff b).2 hl0.1
@@ -282,7 +294,7 @@ theorem chain_in_binding_order (own : Owner) (beh : Behaviour) (hb : NoDestroy b
     (keys st.list).Sublist (bindOrder st.log) ∧ (bindOrder st.log).Nodup := by
   have := execOps_good own beh hb fuel ops St.init hops Top.init
   rw [hr] at this
-  exact ⟨(this.2 hnd).1.order, (bindOrder_nodup this.1).1⟩
+  exact ⟨(this.2 hnd).1.1.order, (bindOrder_nodup this.1).1⟩
 
 /-- …and this holds in every state a task runs in (any nesting depth), being part of the invariant. -/
 theorem chain_in_binding_order_inv (st : St) (h : Tickit.Bindings.Inv st) :
@@ -301,7 +313,7 @@ theorem live_bindings_are_in_chain : LiveInChainStmt Cfg.repaired := by
   intro own beh hb fuel ops st hops hr hnd k
   have := execOps_good own beh hb fuel ops St.init hops Top.init
   rw [hr] at this
-  exact ((this.2 hnd).1.liveIff k).symm
+  exact ((this.2 hnd).1.1.liveIff k).symm
 
 /-! ### the unchanged code violates the clauses: counterexample theorems
 
@@ -358,7 +370,7 @@ theorem no_fire_after_unbind_counterexample : ¬ NoFireAfterUnbindStmt Cfg.origi
   obtain ⟨st, hr, hlog, _⟩ := runs_of_isOk (cfg := Cfg.original) (own := Owner.pen) (beh := behReemit) (fuel := 30)
     (ops := [.bind 1 false wantsUnbind 0, .unbind 0]) (by decide)
   have := h Owner.pen behReemit noDestroy_behReemit 30 _ st (by decide) hr
-    [.leave 0, .actEnd, .occEnd 1, .leave 0, .enter 0 0 1 1 1, .fire 0 1, .occBegin 1 1 false, .actBegin 0, .enter 0 0 0 2 0]
+    [.leave 0 0 0, .actEnd, .occEnd 1, .leave 0 1 0, .enter 0 0 1 1 1, .fire 0 1, .occBegin 1 1 false, .actBegin 0, .enter 0 0 0 2 0]
     [.bound 0 1 1 false wantsUnbind] 0 (by rw [hlog]; decide)
   revert this; decide
 
@@ -433,5 +445,13 @@ example :
     (match exec Cfg.repaired Owner.pen behMutate 50 (.runEvent false 1) stThree with
      | .ok (st', _) => some (keys stThree.list, firesOf stThree.nextOcc st'.log, keys st'.list)
      | _ => none) = some ([2, 0, 1], [2, 0, 3], [2, 0, 3]) := by decide
+
+/-- The claim clause is not vacuous: three key handlers on a terminal, the second one claims (returns 1): the walker
+    returns 1 after two deliveries and the third binding, though live, is not delivered to. -/
+example :
+    (match exec Cfg.repaired Owner.term (fun h _ => if h = 1 then ⟨[], 1⟩ else ⟨[], 0⟩) 50 (.runEvent true 2)
+        (bindEvent (bindEvent (bindEvent St.init 2 false plain 0) 2 false plain 1) 2 false plain 2) with
+     | .ok (st', r) => some (firesOf 1 st'.log, r, st'.log.head?, (st'.log.drop 1).head?)
+     | _ => none) = some ([0, 1], 1, some (Ev.occEnd 1), some (Ev.leave 1 1 1)) := by decide
 
 end Tickit.Props.C16
